@@ -126,6 +126,7 @@ func schemaStream() ([]Tok, *ast.Source) {
 	verifrt.SetOpt("merge", verifrt.Param("merge", 0))
 	toks := append(append([]Tok(nil), pre...), SymbolicStream(k, Alphabet(SchemaNames, verifrt.Param("invalid", 0) != 0), verifrt.Param("first", -1))...)
 	toks = append(toks, suf...)
+	SymStart = len(pre)
 	return toks, Install(toks)
 }
 
@@ -263,3 +264,7 @@ func SchemaLimit() {
 		}
 	}
 }
+
+// SchemaStream / SchemaAlphabet: see QueryStream.
+func SchemaStream() ([]Tok, *ast.Source) { return schemaStream() }
+func SchemaAlphabet() []Tok              { return Alphabet(SchemaNames, verifrt.Param("invalid", 0) != 0) }
